@@ -42,6 +42,7 @@ type Config struct {
 	AutoUF       bool            // callees without body or model become uninterpreted pure functions (sweep)
 	UF0          map[string]bool // functions replaced by an arbitrary constant result per path (their argument does not change during the run)
 	UF           map[string]bool // functions replaced by uninterpreted pure functions of their arguments (stub by contract)
+	Calendar     bool            // calendar abstraction for time.Date / Year / Month / ... on symbolic instants (calendar.go)
 	AltSolver    string          // second-opinion solver for queries the primary leaves unknown ("" = none)
 	AltTimeoutMs int
 	NoSpareCap   bool // do not explore "input slice has spare capacity" at append (append always reallocates)
